@@ -2,6 +2,7 @@ package system
 
 import (
 	"context"
+	"database/sql"
 	"errors"
 	"fmt"
 	"sync"
@@ -30,7 +31,7 @@ func (c *controllerFacade) handleState(ctx context.Context, dryRun bool, fn func
 		return fn(c.Controller)
 	}
 
-	ctrl, tx, err := c.BeginTX(ctx, nil)
+	ctrl, tx, err := c.Controller.BeginTX(ctx, nil)
 	if err != nil {
 		return err
 	}
@@ -40,49 +41,8 @@ func (c *controllerFacade) handleState(ctx context.Context, dryRun bool, fn func
 
 	if err := withLock(ctx, ctrl, func(ctrl ledgercontroller.Controller, conn bun.IDB) error {
 
-		// todo: remove that in a later version
-		ret, err := tx.NewUpdate().
-			Model(&l).
-			Set("state = ?", ledger.StateInUse).
-			Where("id = ? and state = ?", l.ID, ledger.StateInitializing).
-			Exec(ctx)
-		if err != nil {
+		if err := markInUse(ctx, tx, l); err != nil {
 			return err
-		}
-
-		rowsAffected, err := ret.RowsAffected()
-		if err != nil {
-			return err
-		}
-
-		if rowsAffected > 0 {
-			_, err := tx.NewRaw(
-				fmt.Sprintf(`
-					select setval(
-						'"%s"."transaction_id_%d"', 
-						(
-							select max(id) from "%s".transactions where ledger = '%s'
-						)::bigint
-					)
-				`, l.Bucket, l.ID, l.Bucket, l.Name),
-			).Exec(ctx)
-			if err != nil {
-				return fmt.Errorf("failed to update transactions sequence value: %w", err)
-			}
-
-			_, err = tx.NewRaw(
-				fmt.Sprintf(`
-					select setval(
-						'"%s"."log_id_%d"', 
-						(
-							select max(id) from "%s".logs where ledger = '%s'
-						)::bigint
-					)
-				`, l.Bucket, l.ID, l.Bucket, l.Name),
-			).Exec(ctx)
-			if err != nil {
-				return fmt.Errorf("failed to update logs sequence value: %w", err)
-			}
 		}
 
 		if err := fn(ctrl); err != nil {
@@ -109,6 +69,86 @@ func (c *controllerFacade) handleState(ctx context.Context, dryRun bool, fn func
 	}
 
 	return nil
+}
+
+// markInUse flips the ledger from initializing to in-use inside tx and, when it did the flip, moves the transaction and
+// log id sequences past the ids an import may have inserted. The caller holds the ledger lock.
+func markInUse(ctx context.Context, tx *bun.Tx, l ledger.Ledger) error {
+	// todo: remove that in a later version
+	ret, err := tx.NewUpdate().
+		Model(&l).
+		Set("state = ?", ledger.StateInUse).
+		Where("id = ? and state = ?", l.ID, ledger.StateInitializing).
+		Exec(ctx)
+	if err != nil {
+		return err
+	}
+
+	rowsAffected, err := ret.RowsAffected()
+	if err != nil {
+		return err
+	}
+
+	if rowsAffected > 0 {
+		_, err := tx.NewRaw(
+			fmt.Sprintf(`
+				select setval(
+					'"%s"."transaction_id_%d"', 
+					(
+						select max(id) from "%s".transactions where ledger = '%s'
+					)::bigint
+				)
+			`, l.Bucket, l.ID, l.Bucket, l.Name),
+		).Exec(ctx)
+		if err != nil {
+			return fmt.Errorf("failed to update transactions sequence value: %w", err)
+		}
+
+		_, err = tx.NewRaw(
+			fmt.Sprintf(`
+				select setval(
+					'"%s"."log_id_%d"', 
+					(
+						select max(id) from "%s".logs where ledger = '%s'
+					)::bigint
+				)
+			`, l.Bucket, l.ID, l.Bucket, l.Name),
+		).Exec(ctx)
+		if err != nil {
+			return fmt.Errorf("failed to update logs sequence value: %w", err)
+		}
+	}
+
+	return nil
+}
+
+// BeginTX starts the transaction an atomic bulk runs in. On a ledger that is still initializing it follows the same
+// protocol as handleState inside that transaction (ledger lock, state flip, sequence resync): otherwise the bulk would
+// draw ids from sequences an import left behind the stored ids, and a later import would still be accepted.
+func (c *controllerFacade) BeginTX(ctx context.Context, options *sql.TxOptions) (ledgercontroller.Controller, *bun.Tx, error) {
+	ctrl, tx, err := c.Controller.BeginTX(ctx, options)
+	if err != nil {
+		return nil, nil, err
+	}
+
+	c.mu.RLock()
+	l := c.ledger
+	c.mu.RUnlock()
+	if l.State == ledger.StateInUse {
+		return ctrl, tx, nil
+	}
+
+	// inside a transaction the ledger lock is transaction scoped: it is released by the caller's commit or rollback
+	lockedCtrl, _, _, err := ctrl.LockLedger(ctx)
+	if err == nil {
+		err = markInUse(ctx, tx, l)
+	}
+	if err != nil {
+		_ = ctrl.Rollback(ctx)
+		return nil, nil, err
+	}
+
+	return lockedCtrl, tx, nil
 }
 
 func (c *controllerFacade) CreateTransaction(ctx context.Context, parameters ledgercontroller.Parameters[ledgercontroller.CreateTransaction]) (*ledger.Log, *ledger.CreatedTransaction, bool, error) {
